@@ -142,7 +142,7 @@ def lastblk_cases(rng, tier, both):
     """(bytes_per_block, bytes_in_last_block, tail) grid with bilb not dividing bpb: the tail of the archive at
     every border of every kind of slot, in particular beyond the last whole multiple of bilb (where rounding up
     overshoots the block); archives shorter than one block and archives with whole blocks in front."""
-    pairs = LASTBLK_PAIRS if tier == 'quick' else LASTBLK_PAIRS + [(rng.randrange(2, 3000), rng.randrange(2, 3000)) for _ in range(120)]
+    pairs = LASTBLK_PAIRS if tier == 'quick' else LASTBLK_PAIRS + [(rng.randrange(2, 3000), rng.randrange(2, 3000)) for _ in range(50)]
     for bpb, bil in pairs:
         whole = bpb // bil * bil
         tails = sorted(set(r for r in (1, bil - 1, bil, bil + 1, whole - 1, whole, whole + 1, (whole + bpb) // 2, bpb - 1) if 0 < r < bpb))
@@ -182,7 +182,7 @@ class Cw(Engine):
             yield c
 
     def gen0(self, rng, tier):
-        n = self.nbase if tier == 'quick' else self.nbase * 5
+        n = self.nbase if tier == 'quick' else self.nbase * 4
         # 1. raw format: the blocking layer alone, full (bpb, bil) grid
         for i in range(n):
             bpb, bil = rng.choice(BPBS + [3, 513, 65537]), rng.choice(BILS + [3, 100, 20000])
@@ -212,7 +212,7 @@ class Cw(Engine):
                           ['sys ' + ' '.join(rng.choice([[], [], ['a3', 'i', 'a100'], ['i', 'a1', 'a1', 'A', 'i']])), f'{op} {kind}' if kind != 'reg' or rng.random() < 0.5 else op,
                            plain_header(size=total), f'fill {total} {rng.randrange(256)}', 'close', 'free']
                     yield Case(f'sink-{op}-{kind}-{bpb}-{bil}', ops, {'fmt': 'raw', 'bpb': bpb, 'bil': bil, 'kind': 'sink-grid', 'filter': '-', 'sink': op + ':' + kind})
-        ns = 45 if tier == 'quick' else 800
+        ns = 45 if tier == 'quick' else 400
         for i in range(ns):
             sink, knd = rng.choice(SINKS)
             fmt = rng.choice(['raw', 'raw', 'ustar'])
@@ -301,8 +301,8 @@ class Cw(Engine):
                     return [plain_header('a', 5), 'fill 5 1', plain_header('ab', 6), 'fill 6 2', plain_header('odd_name_17_chars', 1), 'fill 1 3']
                 return [plain_header('a', 5), 'fill 5 1', 'finish', plain_header('ab', 6), 'fill 6 2', plain_header('dir/abc', 0), plain_header('dir/abcd', 3), 'fill 3 3']
             for fmt in SWEEP_FORMATS:
-                for bpb, ks in ((0, range(16 if tier == 'quick' else 60)), (1, range(0, 16 if tier == 'quick' else 200, 1 if tier != 'quick' else 2)),
-                                (7, range(4 if tier == 'quick' else 40)), (512, range(3 if tier == 'quick' else 12)), (10240, range(2))):
+                for bpb, ks in ((0, range(16 if tier == 'quick' else 40)), (1, range(0, 16 if tier == 'quick' else 120, 2)),
+                                (7, range(4 if tier == 'quick' else 20)), (512, range(3 if tier == 'quick' else 8)), (10240, range(2))):
                     # one case = the archives for all failing indices of this (format, block size), one after the other
                     ops = []
                     for k in ks:
@@ -311,7 +311,7 @@ class Cw(Engine):
                     yield Case(f'sweep-{fmt}-{bpb}', ops, {'fmt': fmt, 'bpb': bpb, 'bil': -1, 'kind': 'monitor', 'filter': '-'})
                 # memory sink of every size below the needed one (pass-through blocks: every output call reaches memory_write)
                 sizes = [0, 1, 2, 7, 25, 26, 27, 59, 60, 61, 75, 76, 77, 109, 110, 111, 130, 300, 511, 512, 513, 700, 1023, 1024, 1025, 1500, 2048]
-                picked = rng.sample(sizes, 9) if tier == 'quick' else list(range(0, 2600, 3)) + sizes
+                picked = rng.sample(sizes, 9) if tier == 'quick' else list(range(0, 2600, 17)) + sizes
                 if fmt in ('raw', 'ustar'):
                     for sz in picked:
                         ops = ['new', f'fmt {fmt}', f'bpb {rng.choice([0, 0, 1, 512])}', f'openmem {sz} {sz}'] + small_entries(fmt) + ['close', 'free']
